@@ -143,7 +143,10 @@ class PrioTrace:
                 dividend, n = v[pos], v[pos + 1]
                 calls.add((dividend, tuple(v[pos + 2:pos + 2 + n])))
                 pos += 2 + n
-            self.ops.append((tp, tx, olen, calls))
+            nrow = v[pos]
+            snap = tuple(tuple(v[pos + 1 + 3 * j:pos + 4 + 3 * j]) for j in range(nrow))
+            pos += 1 + 3 * nrow
+            self.ops.append((tp, tx, olen, calls, snap))
         self.closed, self.err = v[pos], v[pos + 1]
 
 
@@ -159,7 +162,7 @@ def replay_driver(meta, tr):
     for (code, arg, stl) in pre:
         puts[nxt] = arg
         nxt += 1
-    for (code, arg, stl), (tp, tx, olen, calls) in zip([o for o in meta["ops"] if o[0] != 6], tr.ops):
+    for (code, arg, stl), (tp, tx, olen, calls, snap) in zip([o for o in meta["ops"] if o[0] != 6], tr.ops):
         taken = None
         closed_seen = False
         if code == 1:
@@ -178,7 +181,7 @@ def replay_driver(meta, tr):
             if held:
                 held.pop(arg % len(held))
         out.append({"held": list(held), "olen": olen, "taken": taken, "closed_seen": closed_seen, "puts": dict(puts),
-                    "closed_in": set(closed_in), "settled": bool(stl), "calls": calls})
+                    "closed_in": set(closed_in), "settled": bool(stl), "calls": calls, "snap": snap})
     return out
 
 
@@ -468,5 +471,9 @@ class Prio1Trace:
             nch = v[pos]
             consumed = tuple((v[pos + 1 + 2 * j], v[pos + 2 + 2 * j]) for j in range(nch))
             pos += 1 + 2 * nch
-            self.ops.append((tp, tx, olen, pend, done, consumed, calls))
+            nrow = v[pos]
+            snap = tuple(tuple(v[pos + 1 + 3 * j:pos + 4 + 3 * j]) for j in range(nrow))
+            pos += 1 + 3 * nrow
+            self.ops.append((tp, tx, olen, pend, done, consumed, snap, calls))
         self.done, self.err = v[pos], v[pos + 1]
+        self.ambiguous = len(v) > pos + 2 and v[pos + 2] == 1
